@@ -92,6 +92,8 @@ def install_contracts(rec):
 
     def post_S_symmetric(K, S_a, S_y, result):
         holder[0].count("contract.S.post")
+        if _installed.get("off"):
+            return True   # (cases outside the contracts' conditioning budget: judged by their own oracle)
         n = K.shape[1]
         if result.shape != (n, n) or not np.all(np.isfinite(result)):
             return False
@@ -101,10 +103,14 @@ def install_contracts(rec):
 
     def post_G_shape(K, S_a, S_y, result):
         holder[0].count("contract.G.post")
+        if _installed.get("off"):
+            return True   # (cases outside the contracts' conditioning budget: judged by their own oracle)
         return result.shape == (K.shape[1], K.shape[0]) and bool(np.all(np.isfinite(result)))
 
     def post_A_shape_trace(K, S_a, S_y, result):
         holder[0].count("contract.A.post")
+        if _installed.get("off"):
+            return True   # (cases outside the contracts' conditioning budget: judged by their own oracle)
         n = K.shape[1]
         if result.shape != (n, n) or not np.all(np.isfinite(result)):
             return False
@@ -623,12 +629,74 @@ def run_shard(spec, rec):
                 rec.sample({"g": g})
         if i % 6 == 0:
             check_limits(rec, limit_params(spec["seed"], spec["shard"], i))
+        if i % 6 == 3:
+            check_highsnr(rec, highsnr_params(spec["seed"], spec["shard"], i))
+
+
+def check_highsnr(rec, g):
+    """Scalar covariances S_a = ua I, S_y = uy I (perfectly conditioned), a rank-deficient / under-
+    determined Jacobian and a signal-to-noise ratio of 1e8..1e12: S = V diag(1 / (l_i / uy + 1 / ua)) V^T
+    with (l_i, V) the eigen-decomposition of K^T K. The null space of K keeps the prior variance ua -
+    the largest eigenvalue of S. Any backward-stable inversion gets S to a small multiple of kappa * eps
+    <= 4e-5 of its norm (observed on the unchanged tree: <= 1e-4); demanded: 2e-2 (norm-wise), also for
+    A = I - S / ua. The contracts' own conditioning budget does not apply here (switched off)."""
+    from typhon.retrieval.oem import common
+    rng = np.random.default_rng(g["s"])
+    n, m = g["n"], g["m"]
+    K = rng.normal(size=(m, n))
+    if g["k"] == "rankdef" and min(m, n) > 1:
+        r = max(1, min(m, n) // 2)
+        K = rng.normal(size=(m, r)) @ rng.normal(size=(r, n))
+    ua, uy = g["ua"], g["uy"]
+    nk = np.linalg.norm(K, 2)
+    K = K * (np.sqrt(g["snr"] * uy / ua) / nk)
+    S_a, S_y = np.eye(n) * ua, np.eye(m) * uy
+    lam, V = np.linalg.eigh(K.T @ K)
+    lam = np.clip(lam, 0, None)
+    S_ref = (V / (lam / uy + 1 / ua)) @ V.T
+    A_ref = np.eye(n) - S_ref / ua
+    case = {"sub": "highsnr", "g": g}
+    rec.ev()
+    rec.count("highsnr.cases")
+    _installed["off"] = True
+    try:
+        ok1, S = call(rec, case, "error_covariance_matrix", common.error_covariance_matrix, K, S_a, S_y)
+        ok2, A = call(rec, case, "averaging_kernel_matrix", common.averaging_kernel_matrix, K, S_a, S_y)
+    finally:
+        _installed["off"] = False
+    null_dim = int(np.sum(lam / uy < 1e-3 / ua))
+    for name, ok, got, ref in (("S-defn", ok1, S, S_ref), ("A-defn", ok2, A, A_ref)):
+        if not ok:
+            continue
+        got = np.asarray(got, dtype=float)
+        scale = max(np.linalg.norm(ref, 2), ua if name == "S-defn" else 1.0)
+        err = np.linalg.norm(got - ref, 2) if got.shape == ref.shape else np.inf
+        rec.maxi("highsnr.rel_err", float(err / scale) if np.isfinite(err) else 1e9)
+        if not err <= 2e-2 * scale:
+            rec.violation(name, case, {"why": "scalar covariances, signal-to-noise ratio %.0e" % g["snr"],
+                                       "err_2norm": float(err), "scale": float(scale),
+                                       "null_space_dimension_of_K": null_dim, "n": n, "m": m})
+            return
+    if null_dim:
+        rec.count("highsnr.with_null_space")
+        rec.nontriv(["highsnr", g["k"], n > m, int(np.log10(g["snr"]))], g["s"])
+
+
+def highsnr_params(seed, shard, i):
+    rng = np_rng_for(seed, "c17-highsnr", shard, i)
+    n = int(rng.integers(2, 31))
+    m = int(rng.integers(1, 41))
+    return {"n": n, "m": m, "k": "rankdef" if (m >= n or rng.random() < 0.5) else "gauss",
+            "ua": float(10 ** rng.uniform(-4, 4)), "uy": float(10 ** rng.uniform(-4, 4)),
+            "snr": float(10 ** rng.uniform(8, 11.5)), "s": int(rng.integers(0, 2 ** 31))}
 
 
 def replay(case, rec):
     install_contracts(rec)
     if case.get("sub") == "limit":
         check_limits(rec, case["g"])
+    elif case.get("sub") == "highsnr":
+        check_highsnr(rec, case["g"])
     else:
         if not check_triple(rec, case["g"], shrink=False):
             rec.inconc("replayed triple is outside the kappa budget")
